@@ -149,9 +149,24 @@ class Adapter(object):
                                 other = [x for x in con.column if x is not c][0]
                                 if other not in cols and other.num_nodes == 4 and other not in edge:
                                     edge.append(other)
-                    edge = edge[:1]
+                    if args[2] == "all":
+                        # ... plus quadrilaterals next to the selection that are connected to one of those (they get a
+                        # refined side from the connection between two listed edge columns)
+                        more = [n for e in list(edge) for n in e.neighbour
+                                if n not in cols and n not in edge and n.num_nodes == 4 and any(n in c.neighbour for c in cols)]
+                        for x in more:
+                            if x not in edge:
+                                edge.append(x)
+                    else:
+                        edge = edge[:1]
                 g.refine(cols, bisect=args[1], bisect_edge_columns=edge)
             elif op == "decompose_columns":
+                if len(args) > 1 and args[1]:
+                    # the start of a column's node cycle is arbitrary: rotate it before decomposing
+                    for n in args[0]:
+                        c = g.column[n]
+                        k = args[1] % c.num_nodes
+                        c.node = c.node[k:] + c.node[:k]
                 g.decompose_columns([g.column[n] for n in args[0]] if args[0] else [])
             elif op == "reduce":
                 g.reduce([g.column[n] for n in args[0]])
@@ -238,6 +253,57 @@ def validate(traces, atmtype, timeout=3000, jobs=14):
 
 
 # ---------------------------------------------------------------- meshes and drivers
+def poly_mesh(m, atm, sides=(0, 1, 2), rot=0):
+    """A 20 m square centre column with a mid-side node on each side in `sides` (0 bottom, 1 right, 2 top, 3 left):
+    4 + len(sides) nodes, len(sides) straight angles; two half-width neighbours on those sides, one full neighbour on
+    the others; the centre column's node cycle starts at position rot."""
+    geo = m.mulgrid(convention=0, atmos_type=atm)
+    pts = {}
+
+    def nd(x, y):
+        if (x, y) not in pts:
+            name = geo.node_name_from_number(len(pts) + 1)
+            geo.add_node(m.node(name, np.array([float(x), float(y)])))
+            pts[(x, y)] = geo.node[name]
+        return pts[(x, y)]
+    ncol = [0]
+
+    def col(xy, r=0):
+        nodes = [nd(x, y) for x, y in xy]
+        nodes = nodes[r % len(nodes):] + nodes[:r % len(nodes)]
+        ncol[0] += 1
+        name = geo.column_name_from_number(ncol[0])
+        geo.add_column(m.column(name, nodes))
+    corners = [(0, 0), (20, 0), (20, 20), (0, 20)]
+    mids = [(10, 0), (20, 10), (10, 20), (0, 10)]
+    cyc = []
+    for k in range(4):
+        cyc.append(corners[k])
+        if k in sides:
+            cyc.append(mids[k])
+    col(cyc, rot)
+    outer = [((0, -10), (20, -10)), ((30, 0), (30, 20)), ((20, 30), (0, 30)), ((-10, 20), (-10, 0))]   # far corners, along the side
+    for k in range(4):
+        a, b = corners[k], corners[(k + 1) % 4]
+        oa, ob = outer[k]
+        if k in sides:
+            mid = mids[k]
+            omid = ((oa[0] + ob[0]) // 2, (oa[1] + ob[1]) // 2)
+            col([oa, omid, mid, a])
+            col([omid, ob, b, mid])
+        else:
+            col([oa, ob, b, a])
+    with core.quiet():
+        for con in geo.missing_connections:
+            geo.add_connection(con)
+        geo.identify_neighbours()
+        geo.add_layers([10.0, 20.0], 0.0)
+        geo.set_default_surface()
+        geo.setup_block_name_index()
+        geo.setup_block_connection_name_index()
+    return geo
+
+
 def lattice_mesh(kind, atm=0):
     m = core.repo_modules("mulgrids")
     with core.quiet():
@@ -247,6 +313,15 @@ def lattice_mesh(kind, atm=0):
             geo = m.mulgrid().rectangular([10.0, 20.0, 10.0], [10.0, 10.0], [10.0, 10.0], atmos_type=atm)
         elif kind == "3x3":
             geo = m.mulgrid().rectangular([10.0] * 3, [10.0] * 3, [10.0, 10.0, 20.0], atmos_type=atm)
+        elif kind == "wt":
+            # a wide and a tall column side by side, two columns above them (bisection with several edge columns)
+            geo = m.mulgrid().rectangular([20.0, 10.0], [15.0, 10.0], [10.0, 20.0], atmos_type=atm)
+        elif kind == "wt2":
+            geo = m.mulgrid().rectangular([10.0, 30.0, 10.0, 10.0], [10.0, 20.0, 10.0], [10.0, 20.0], atmos_type=atm)
+        elif kind == "poly":
+            geo = poly_mesh(m, atm)
+        elif kind == "4x3":
+            geo = m.mulgrid().rectangular([10.0] * 4, [10.0] * 3, [10.0, 20.0], atmos_type=atm)
         elif kind == "mixed":
             # a quadrilateral, a triangle and a pentagon (square with a mid-side node) sharing edges
             geo = m.mulgrid().rectangular([10.0, 10.0, 10.0], [10.0, 10.0], [10.0, 20.0], atmos_type=atm)
@@ -261,6 +336,39 @@ def lattice_mesh(kind, atm=0):
         geo.setup_block_name_index()
         geo.setup_block_connection_name_index()
     return geo
+
+
+def connected_subset(geo, rng, k):
+    """A set of k columns that is connected through shared edges and has no pinch node (the domain of the
+    edit operations is connected geometries): grown breadth-first from a random column, checked afterwards."""
+    for _ in range(10):
+        start = rng.choice(geo.columnlist)
+        seen, queue = [start], [start]
+        while queue and len(seen) < k:
+            c = queue.pop(0)
+            for n in sorted(c.neighbour, key=lambda x: x.name):
+                if n not in seen and len(seen) < k:
+                    seen.append(n)
+                    queue.append(n)
+        sub = set(seen)
+        ok = len(seen) == k
+        for node in set(n for c in sub for n in c.node):
+            cs = [c for c in node.column if c in sub]
+            if len(cs) > 1:
+                # the columns around a node must form one fan linked by edges through that node
+                comp, todo = {cs[0]}, [cs[0]]
+                while todo:
+                    c = todo.pop()
+                    for d in cs:
+                        if d not in comp and d in c.neighbour and len(set(c.node) & set(d.node)) > 1 and node in d.node:
+                            comp.add(d)
+                            todo.append(d)
+                if len(comp) != len(cs):
+                    ok = False
+                    break
+        if ok:
+            return [c.name for c in seen]
+    return None
 
 
 def op_alphabet(geo, rng, rich):
@@ -294,8 +402,9 @@ def op_alphabet(geo, rng, rich):
         ops.append({"op": "rename_column", "args": [rng.choice(names), free[0]]})
     if len(names) > 1:
         ops.append({"op": "delete_column", "args": [rng.choice(names)]})
-        keep = rng.sample(names, max(1, len(names) // 2))
-        ops.append({"op": "reduce", "args": [keep]})
+        keep = connected_subset(geo, rng, max(1, len(names) // 2))
+        if keep:
+            ops.append({"op": "reduce", "args": [keep]})
     if names:
         lay = rng.choice(geo.layerlist)
         ops.append({"op": "set_surface", "args": [rng.choice(names), int(round(lay.bottom / H)) + rng.choice([0, 1, -1])]})
@@ -303,6 +412,11 @@ def op_alphabet(geo, rng, rich):
     if ls and len(geo.layerlist) < 12:
         ops.append({"op": "refine_layers", "args": [[rng.choice(ls)], rng.choice([2, 4])]})
         ops.append({"op": "refine_layers", "args": [ls, 2]})
+    free_l = [n for n in (" 9", " 8", " 7") if n not in geo.layer]
+    if free_l and geo.layerlist:
+        ops.append({"op": "rename_layer", "args": [geo.layerlist[0].name, free_l[0]]})           # the atmosphere layer
+        if len(geo.layerlist) > 1 and len(free_l) > 1:
+            ops.append({"op": "rename_layer", "args": [rng.choice(geo.layerlist[1:]).name, free_l[1]]})
     ops.append({"op": "translate", "args": [rng.choice([4, -8]), rng.choice([0, 4]), rng.choice([0, -4])]})
     ops.append({"op": "rotate90", "args": [rng.choice([1, 2, 3])]})
     ops.append({"op": "check", "args": []})
